@@ -38,3 +38,87 @@ for _mn in ("none", "real"):
                 ("same_algorithm", "self.distributor.options['algorithm'] == self.options['algorithm']"),
             ],
         }
+
+
+# ---------------------------------------------------------------------------------------------------- Force.compute (C04, C06)
+def force_full():
+    return {"$obj": ("force", "Force"),
+            "fields": {"options": {"$dict": {"nodeSpacing": "real", "minPos": "real", "maxPos": "real",
+                                             "algorithm": lambda E, P, name: Str(["overlap"]), "density": "real", "stubWidth": "real"}},
+                       "distributor": {"$obj": ("distributor", "Distributor"),
+                                       "fields": {"options": {"$dict": {"algorithm": lambda E, P, name: Str(["overlap"]),
+                                                                        "layerWidth": "real", "density": "real", "nodeSpacing": "real",
+                                                                        "stubWidth": "real"}}}},
+                       "_nodes": "slist:ref:Node", "layers": "none", "force": {"$dict": {}}}}
+
+
+_NODE_ALL = ["Node.idealPos", "Node.currentPos", "Node.width", "Node.data", "Node.layerIndex", "Node.parent", "Node.child",
+             "Node.overlap", "Node.overlapCount", "Node.targetPos", "Node.targetPos$set"]
+_LISTS = ["list.len.ref~Node", "list.elems.ref~Node", "list.len.slist~ref~Node", "list.elems.slist~ref~Node"]
+
+# Call-site summaries used inside Force.compute.  distribute: ASSUMED (bounded driver c04 checks the structure it returns);
+# its precondition IS an obligation of compute.  removeOverlap: only its frame is used here (its own contract is verified in
+# contracts/removeoverlap.py; its preconditions are not established from distribute's assumed postcondition).
+_DISTRIBUTE_SUMMARY = {
+    # labels arrive without stubs of an earlier layout: otherwise a label that now sits in layer 0 keeps a stub that is in
+    # no layer ("no other items exist", "owns exactly one stub in each layer nearer the axis")
+    "requires": [("labels_arrive_without_stale_stubs", "forall(lambda j: implies(0 <= j < len(nodes), nodes[j].parent is None))")],
+    "modifies": _NODE_ALL + _LISTS, "allocates": ["Node", "list"], "returns": "slist:slist:ref:Node",
+    "ensures": ["forall(lambda k: implies(0 <= k < len(result), result[k] is not None and fresh(result[k]) or result[k] is nodes))",
+                "forall(lambda k: implies(0 <= k < len(result), result[k] is not None))",
+                "forall(lambda k: implies(0 <= k < len(result), forall(lambda j: implies(0 <= j < len(result[k]), result[k][j] is not None))))",
+                "fresh(result)"],
+}
+_REMOVEOVERLAP_SUMMARY = {
+    "requires": [],
+    "modifies": ["Node.targetPos", "Node.targetPos$set", "Node.currentPos", "list.elems.ref~Node"],
+    "allocates": ["Variable", "Constraint", "Solver", "Blocks", "Block", "PositionStats", "list"],
+    "returns": "slist:ref:Node",
+    "ensures": ["result is nodes",
+                # sorts the layer in place: same items (none is lost to None); every other list is untouched
+                "forall(lambda j: implies(0 <= j < len(nodes), nodes[j] is not None))",
+                "forall(lambda l, j: implies(l is not nodes and old(alloc(l)), l[j] is old_at(l, j)), 'slist:ref:Node', 'int')"],
+}
+
+CONTRACTS["force.Force.compute"] = {
+    "props": ["C04", "C06"], "heap": True,
+    "params": {"self": force_full()},
+    "requires": ["forall(lambda j: implies(0 <= j < len(self._nodes), self._nodes[j] is not None))"],
+    "modifies": _NODE_ALL + _LISTS,
+    "allocates": ["Node", "list", "Variable", "Constraint", "Solver", "Blocks", "Block", "PositionStats"],
+    "callee_contracts": {"distributor.Distributor.distribute": _DISTRIBUTE_SUMMARY,
+                         "removeOverlap.removeOverlap": _REMOVEOVERLAP_SUMMARY},
+    "loops": {
+        # every registered label is detached from the stub chain of whatever layout it was part of before
+        "for node in self._nodes": {
+            "label": "_detach", "index": "_kd", "modifies": ["Node.parent", "Node.child"], "locals": {"node": "ref:Node"},
+            "inv": [("prefix_detached", "forall(lambda j: implies(0 <= j < _kd, self._nodes[j].parent is None))")]},
+        "for layerIndex, nodes in enumerate(layers)": {
+            "label": "_layers", "index": "_kl", "modifies": ["Node.layerIndex", "Node.targetPos", "Node.targetPos$set", "Node.currentPos", "list.elems.ref~Node"],
+            "allocates": ["Variable", "Constraint", "Solver", "Blocks", "Block", "PositionStats", "list"],
+            "locals": {"layerIndex": "int", "nodes": "slist:ref:Node", "node": "ref:Node"},
+            "inv": [("layers_nonnull", "forall(lambda k: implies(0 <= k < len(layers), layers[k] is not None))"),
+                    ("items_nonnull", "forall(lambda k: implies(0 <= k < len(layers), forall(lambda j: implies(0 <= j < len(layers[k]), layers[k][j] is not None))))")]},
+        "for node in nodes": {
+            "label": "_stamp", "index": "_ks", "modifies": ["Node.layerIndex"], "locals": {"node": "ref:Node"},
+            "inv": [("prefix_stamped", "forall(lambda j: implies(0 <= j < _ks, nodes[j].layerIndex == layerIndex))")]},
+    },
+    # concrete scenario of the two clauses a counter-model cannot be rebuilt for (heap contract): labels that carry the stub
+    # chains of an earlier, crowded layout are laid out again with room for all of them
+    "replay": """
+def replay(m):
+    from labella.force import Force
+    from labella.node import Node
+    nodes = [Node(10 + 2 * k, 12) for k in range(9)]
+    f = Force({"maxPos": 60}); f.nodes(nodes); f.compute()
+    g = Force({"maxPos": None}); g.nodes(nodes); g.compute()
+    layers = g.getLayers()
+    stale = [k for k, n in enumerate(nodes) if n.parent is not None]
+    failed = layers is None or bool(stale)
+    return failed, "getLayers() = %s; labels still owning a stub after a single-layer layout: %r" % (
+        "None" if layers is None else "%d layer(s)" % len(layers), stale), \
+        "nodes = 9 labels at 10,12,..,26 width 12; Force({'maxPos': 60}).nodes(nodes).compute(); Force({'maxPos': None}).nodes(nodes).compute()"
+""",
+    # "the engine reports exactly this layering after a layout" (D2 was: never set)
+    "ensures": [("reports_the_layering", "self.layers is layers__0")],
+}
